@@ -311,6 +311,8 @@ def check_pretty(msg, text):
 def judge_formats(msg, res, expected=None):
     """All clauses for one message and the two formats.  -> (violations [(clause, detail)], f6 seen, drift notes)"""
     viol, drift, f6 = [], [], False
+    if res.get("rerender"):
+        viol.append(("rendering is not a function of the message (a history of renderings of one dictionary)", res["rerender"][:600]))
     for fmt in ("pretty", "compact"):
         out = res[fmt]
         if out is None:
